@@ -251,3 +251,5 @@ Example c19_fault_bound_witness2 :
   ([OOk 2; OErr 5%N; OOk 2; OOk 0; OOk 1],
    [(1, WErr 5%N, 3); (3, WIntr, 6); (3, WOk, 6); (5, WErr 6%N, 2)], 1, 2).
 Proof. exact fault_bound_witness2. Qed.
+
+(* Note after the second read-only review of these pins (selftest/audit/REVIEW-2-2026-10-02.md): c19_fault_emit is the potential-function step behind c19_fault_bound (stated over the proof invariant WriterInv.Inv); the user-level statement is c19_fault_bound.  c19_flush_nothing_pending is the reachable instance of c19_flush_nothing_pending_any. *)
